@@ -223,3 +223,15 @@ package client
 //@   maporder
 //@ func AssignIPv6AddressesOptions.ApplyAssignIPv6Addresses
 //@   maporder
+
+//@ for C19
+//@ # ---- the instance-type description cached in the node annotation is used as the cloud wrote it: it is decoded from the
+//@ # ---- annotation value and handed to getInstanceType unedited (no capability or quota is derived, widened or defaulted
+//@ # ---- on the way — an absent field means "not supported") ----
+//@ guard call getInstanceType in GetLimitFromAnno: JsonOf[arg0] == strBlob(anno["alibabacloud.com/instance-type-info"])
+//@ guard? store ecs.InstanceType.EniTrunkSupported in GetLimitFromAnno: false
+//@ guard? store ecs.InstanceType.EniQuantity in GetLimitFromAnno: false
+//@ guard? store ecs.InstanceType.EniTotalQuantity in GetLimitFromAnno: false
+//@ guard? store ecs.InstanceType.EniPrivateIpAddressQuantity in GetLimitFromAnno: false
+//@ guard? store ecs.InstanceType.EniIpv6AddressQuantity in GetLimitFromAnno: false
+//@ guard? store ecs.InstanceType.EriQuantity in GetLimitFromAnno: false
